@@ -16,7 +16,7 @@ import (
 func init() {
 	register(&Property{
 		ID: "C09",
-		Rule: "1..32 concurrent senders (user goroutines plus parallel foreground and background handler invocations) each issue numbered lines 'S<sender> <counter> <payload>' (payload 0..480 bytes) through Raw " +
+		Rule: "1..32 concurrent senders (user goroutines plus parallel foreground and background handler invocations) each issue numbered lines 'S<sender> <counter> <payload>' (payload 0..480 bytes) through Raw and, for one line in six, through Privmsg / Notice / Topic / Quit " +
 			"while the server end reads fast, one write per token, or in bursts; flood control off; connection stays up. After all senders returned and a trailing separator reached the wire, the transcript must contain " +
 			"every issued line exactly once, byte for byte, nothing else, and each sender's counters in increasing order. A run is non-trivial when lines of >= 2 senders were interleaved on the wire and the output " +
 			"queue was observed full (issued - written >= 33) at least once; distinct_nontrivial = distinct (senders bucket, sender kinds, server read mode, GOMAXPROCS, interleaved, queue-full) cells.",
@@ -87,6 +87,7 @@ func runC09(c *Ctx) {
 
 		var mu sync.Mutex
 		issued := map[string]string{} // "sender counter" -> payload
+		apiIssued := map[string]string{} // exact wire line of a call made through a command method -> "sender counter"
 		var issuedN int64
 		senderSeq := int64(0)
 		payload := func(rr interface{ Intn(int) int }) string {
@@ -111,6 +112,27 @@ func runC09(c *Ctx) {
 				line := "S" + key
 				if p != "" {
 					line += " " + p
+				}
+				if len(p) <= 200 && rr.Intn(6) == 0 {
+					// the same line through one of the command methods (they all end in the same queue)
+					var wire string
+					var call func()
+					switch rr.Intn(4) {
+					case 0:
+						wire, call = "PRIVMSG #s :"+line, func() { s.Conn.Privmsg("#s", line) }
+					case 1:
+						wire, call = "NOTICE n :"+line, func() { s.Conn.Notice("n", line) }
+					case 2:
+						wire, call = "TOPIC #s :"+line, func() { s.Conn.Topic("#s", line) }
+					default:
+						wire, call = "QUIT :"+line, func() { s.Conn.Quit(line) }
+					}
+					mu.Lock()
+					apiIssued[wire] = key
+					mu.Unlock()
+					call()
+					atomic.AddInt64(&issuedN, 1)
+					continue
 				}
 				s.Conn.Raw(line)
 				atomic.AddInt64(&issuedN, 1)
@@ -244,6 +266,12 @@ func runC09(c *Ctx) {
 				lastPong = k
 				pongs++
 				continue
+			}
+			if key, ok := apiIssued[l]; ok {
+				l = "S" + key + " " + issued[key] // judged like the raw form from here on
+				if issued[key] == "" {
+					l = "S" + key
+				}
 			}
 			if !strings.HasPrefix(l, "S") {
 				viol("foreign-line", fmt.Sprintf("unexpected line on the wire %q", clipS(l)))
